@@ -385,6 +385,8 @@ class DescriptorTransaction(_TransactionBase):
             for context_state in all_context_states:
                 state_update = updates_dict.get(context_state.Handle)
                 if state_update is not None:
+                    if state_update.new is None:
+                        continue  # the state is removed by this transaction
                     # the state has also been updated directly in transaction.
                     # update descriptor version
                     old_state, new_state = state_update.old, state_update.new
